@@ -61,6 +61,17 @@ class HarnessError(Exception):
     """Raised by check code when the harness itself is at fault (never a verdict)."""
 
 
+class CaseTimeout(BaseException):
+    """A single case exceeded its wall-clock cap: inconclusive for that case, never a verdict."""
+
+
+def _case_alarm(signum, frame):
+    raise CaseTimeout()
+
+
+CASE_LIMIT_S = 240.0
+
+
 class Ctx:
     """Recorder handed to property code.  Never raises on a violation: it records."""
 
@@ -114,14 +125,24 @@ class Ctx:
         self.evaluations += 1
         cls = str(case.get("cls", "?")) if isinstance(case, dict) else "?"
         self.classes[cls] = self.classes.get(cls, 0) + 1
+        import signal
+        limit = getattr(mod, "CASE_LIMIT_S", CASE_LIMIT_S)
+        signal.signal(signal.SIGALRM, _case_alarm)
+        signal.setitimer(signal.ITIMER_REAL, limit)
         try:
             mod.check(case, self)
+        except CaseTimeout:
+            self.count("case_timeouts")
+            if len(self.extra.setdefault("timed_out_cases", [])) < 3:
+                self.extra["timed_out_cases"].append(json.dumps(case, default=str)[:1500])
         except HarnessError as e:
             self.harness_errors.append(f"{e} case={json.dumps(case, default=str)[:500]}")
         except Exception:
             # An exception escaping check() is a harness problem by construction: repository
             # calls are made through ctx.call / explicit try blocks inside the property code.
             self.harness_errors.append(traceback.format_exc()[-1500:] + f" case={json.dumps(case, default=str)[:500]}")
+        finally:
+            signal.setitimer(signal.ITIMER_REAL, 0)
         if self._case_viol:
             self.n_violating_cases += 1
         if self._nontrivial:
@@ -341,6 +362,8 @@ def fold(mod, pid: str, tier: str, seed: int, results: list[dict], wall: float) 
     for c, least in getattr(mod, "MIN_COUNTERS", {}).get(tier, {}).items():
         if counters.get(c, 0) < least:
             inconclusive.append(f"monitor '{c}' evaluated only {counters.get(c, 0)} times (< {least})")
+    if counters.get("case_timeouts", 0) > max(3, evaluations // 1000):
+        inconclusive.append(f"{counters['case_timeouts']} cases exceeded the per-case time limit")
     distinct = len(digests)
     if distinct < 2:
         inconclusive.append("fewer than 2 distinct non-trivial cases")
